@@ -590,3 +590,65 @@ Section StoreProofs.
   Qed.
 
 End StoreProofs.
+
+(* ------------------------------------------ mean of integer data: no int64 wrap-around *)
+Lemma pow63 : (2 ^ 63 = 9223372036854775808)%Z. Proof. reflexivity. Qed.
+Lemma pow64' : (2 ^ 64 = 18446744073709551616)%Z. Proof. reflexivity. Qed.
+Lemma pow62 : (2 ^ 62 = 4611686018427387904)%Z. Proof. reflexivity. Qed.
+Ltac pow64 := rewrite ?pow63, ?pow64', ?pow62 in *.
+
+Lemma wrap64_id z : in_int64 z -> wrap64 z = z.
+Proof.
+  unfold in_int64, wrap64. intros H. pow64. rewrite Z.mod_small by lia. lia.
+Qed.
+
+Lemma wrap64_range z : in_int64 (wrap64 z).
+Proof.
+  unfold in_int64, wrap64. pow64. pose proof (Z.mod_pos_bound (z + 9223372036854775808) 18446744073709551616 ltac:(lia)). lia.
+Qed.
+
+Lemma wrap64_fix_iff z : wrap64 z = z <-> in_int64 z.
+Proof.
+  split; [|apply wrap64_id]. intros H. rewrite <- H. apply wrap64_range.
+Qed.
+
+Lemma int_mean_is_qmean l : (int_mean l == qmean (map inject_Z l))%Q.
+Proof.
+  unfold int_mean, qmean, qlen. rewrite map_length.
+  assert (E : (inject_Z (zsum l) == qsum (map inject_Z l))%Q).
+  { induction l as [|x r IH]; [reflexivity|].
+    change (inject_Z (x + zsum r) == inject_Z x + qsum (map inject_Z r))%Q.
+    now rewrite inject_Z_plus, IH. }
+  now rewrite E.
+Qed.
+
+(* accumulating the mean in the column's own int64 type agrees with the definition EXACTLY when the
+   total stays inside the int64 range *)
+Theorem wrapped_mean_correct_iff l :
+  l <> [] -> ((wrapped_mean l == int_mean l)%Q <-> in_int64 (zsum l)).
+Proof.
+  intros Hne. unfold wrapped_mean, int_mean.
+  assert (Hn : (0 < inject_Z (Z.of_nat (length l)))%Q).
+  { change 0%Q with (inject_Z 0). rewrite <- Zlt_Qlt. destruct l; [congruence|simpl; lia]. }
+  assert (Hn' : ~ (inject_Z (Z.of_nat (length l)) == 0)%Q) by (intros E; rewrite E in Hn; apply (Qlt_irrefl 0 Hn)).
+  rewrite <- wrap64_fix_iff. split.
+  - intros H. apply inject_Z_injective.
+    apply (Qmult_inj_r _ _ (/ inject_Z (Z.of_nat (length l)))); [|exact H].
+    intros E. apply Hn'. rewrite <- (Qinv_involutive (inject_Z (Z.of_nat (length l)))), E. reflexivity.
+  - intros ->. reflexivity.
+Qed.
+
+(* the overflow variant is refuted by a column of eight values near 2^60..2^62: every cell is an int64,
+   the true mean lies between min and max, the wrapped mean is negative *)
+Theorem wrapped_mean_refuted :
+  exists l, Forall in_int64 l /\ ~ (wrapped_mean l == int_mean l)%Q /\
+            (forall x, In x l -> (inject_Z x <= int_mean l)%Q \/ (int_mean l <= inject_Z x)%Q) /\
+            (wrapped_mean l < 0)%Q /\ (forall x, In x l -> (0 < x)%Z).
+Proof.
+  exists (repeat (2 ^ 62)%Z 3). split; [|split; [|split; [|split]]].
+  - repeat constructor; unfold in_int64; pow64; lia.
+  - rewrite wrapped_mean_correct_iff by discriminate. unfold in_int64. vm_compute. intros [_ H]. discriminate.
+  - intros x Hx. left. simpl in Hx. destruct Hx as [<-|[<-|[<-|[]]]]; vm_compute; discriminate.
+  - vm_compute. reflexivity.
+  - intros x Hx. simpl in Hx. destruct Hx as [<-|[<-|[<-|[]]]]; reflexivity.
+Qed.
